@@ -5,7 +5,7 @@ import re
 
 import vlib
 
-PROPS = ['Rangers.Props.C09', 'Rangers.Props.C09B', 'Rangers.Props.C09C', 'Rangers.Props.C09D', 'Rangers.Props.C09E']
+PROPS = ['Rangers.Props.C09', 'Rangers.Props.C09B', 'Rangers.Props.C09C', 'Rangers.Props.C09D', 'Rangers.Props.C09E', 'Rangers.Props.C09F']
 DRIVERS = ['C09']
 META = dict(
     level='proof',
@@ -65,6 +65,16 @@ def nontrivial(op, x):
 def correspond(ctx):
     c = vlib.correspond(ctx, 'c09', 'C09', ['mode=corr'], canon=canon, timeout=900, nontrivial=nontrivial)
     c['name'] = 'codec'
+    # a broken tie is not agreement: the model must understand every op, and a healthy share of the
+    # stream must be successful marshals/parses on BOTH sides (not errors agreeing with errors)
+    if c.get('bad_op', 0) > 0:
+        c['ok'] = False
+        c.setdefault('errors', []).append('%d ops were answered bad-op by the model (generator/driver mismatch)' % c['bad_op'])
+    res = ((c.get('stats') or {}).get('dist') or {}).get('results') or {}
+    n_ok = res.get('ok', 0)
+    if c.get('ops') and n_ok * 5 < c['ops']:
+        c['ok'] = False
+        c.setdefault('errors', []).append('only %d of %d ops were successful parses: the stream degenerated into errors' % (n_ok, c['ops']))
     # how much of the stream the model declined to answer
     if c.get('ops') and c.get('unmodelled', 0) * 5 > c['ops']:
         c['ok'] = False
@@ -93,17 +103,50 @@ def search(ctx, hints):
     if broken:
         n *= 4
     env = dict(VERIF_SEED=str(ctx.seed), VERIF_TIER=ctx.tier)
+    for f in (out, out + '.live'):
+        if os.path.exists(f):
+            os.remove(f)
     rc, so, se = vlib.run([binp, 'mode=search', 'out=' + out, 'hints=' + hp, 'n=%d' % n], cwd=cwd, env=env, timeout=1500)
     import shutil
     shutil.rmtree(cwd, ignore_errors=True)
+    # violations are flushed one JSON line at a time when found, so a searcher that dies
+    # (fatal runtime error, timeout) still reports what it had
+    live = []
+    if os.path.exists(out + '.live'):
+        for line in open(out + '.live'):
+            try:
+                live.append(json.loads(line))
+            except Exception:
+                pass
     if rc != 0 or not os.path.exists(out):
-        return dict(evaluations=0, distinct_nontrivial=0, violations=[], samples=[],
+        vs = [dict(key=v['key'], desc=v['desc'], replay=v['replay']) for v in live]
+        vs.append(dict(key='searcher-died', desc='the searcher process exited %d before finishing: %s' % (rc, (se or so)[-600:]),
+                       replay=dict(call='harness mode=search', observed=(se or so)[-1500:])))
+        return dict(evaluations=0, distinct_nontrivial=0, violations=vs, samples=[],
                     error='searcher exited %d: %s' % (rc, (se or so)[-1500:]))
     r = json.load(open(out))
     vs = r.get('violations') or []
-    return dict(evaluations=r.get('evaluations', 0), distinct_nontrivial=r.get('distinct', 0),
-                violations=[dict(key=v['key'], desc=v['desc'], replay=v['replay']) for v in vs],
-                samples=[dict(op=v['replay'].get('call'), impl=v['replay'].get('observed', '')[:200]) for v in vs[:4]])
+    res = dict(evaluations=r.get('evaluations', 0), distinct_nontrivial=r.get('distinct', 0),
+               violations=[dict(key=v['key'], desc=v['desc'], replay=v['replay']) for v in vs],
+               samples=[dict(op=v['replay'].get('call'), impl=v['replay'].get('observed', '')[:200]) for v in vs[:4]],
+               concurrency='8 goroutines x 40 rounds compared with sequential results: evidence about goroutine safety, not proof')
+    if ctx.thorough():
+        # the concurrent and retention phases again under the race detector (evidence, not proof)
+        rbin, rlog = vlib.go_build(ctx, vlib.HARNESS, './cmd/c09', 'c09race', race=True)
+        if not rbin:
+            res['race'] = 'race build failed: ' + rlog[-300:]
+        else:
+            cwd2 = ctx.scratch('c09race')
+            out2 = os.path.join(ctx.work, 'race.json')
+            rc2, so2, se2 = vlib.run([rbin, 'mode=search', 'out=' + out2, 'n=30'], cwd=cwd2, env=env, timeout=1500)
+            shutil.rmtree(cwd2, ignore_errors=True)
+            txt = so2 + se2
+            res['race'] = 'exit %d, %d DATA RACE reports' % (rc2, txt.count('WARNING: DATA RACE'))
+            if 'WARNING: DATA RACE' in txt:
+                i = txt.index('WARNING: DATA RACE')
+                res['violations'].append(dict(key='data-race', desc='the race detector reports a data race in the codec under concurrent use',
+                                              replay=dict(call='go build -race; N goroutines Marshal/UnMarshal', observed=txt[i:i + 1500])))
+    return res
 
 
 def replay(ctx, payload):
